@@ -1,6 +1,9 @@
 """C15 — informed sampling returns only, and all of, the states that can still help.
-prove:      coq/Properties_C15.v (over R: the sphere maps onto focal sum = c, the ball maps inside, measure = scaled unit
-            ball; sampler retry loops report success only within the cost bounds / space bounds, for every draw sequence)
+prove:      coq/Properties_C15.v (over R, every dimension: the sphere maps onto focal sum = c, the ball maps inside, the open
+            ball strictly inside, and conversely every point within the bound is the image of a ball point — the transform
+            is a linear bijection ball <-> hyperspheroid; measure = scaled unit ball; for any distance-preserving placement
+            a direct sample costs strictly less than the bound; sampler retry loops report success only within the cost
+            bounds / space bounds, for every draw sequence)
 correspond: RejectionInfSampler loops (one and two bounds) on a scripted base sampler vs the extracted model, exactly
 search:     the C15 statement on the implementation: ProlateHyperspheroid::transform of unit vectors (random foci, dimension
             2..10, c from just above the focal distance to 100x) has focal sum c and lies on / in the PHS; the reported
@@ -93,6 +96,31 @@ def main():
         if abs(meas - exp) > 1e-9 * max(exp, 1e-300) or meas != meas2: pred(l, "reported measure %r, analytic volume %r" % (meas, exp))
         ub = fh(w[w.index("unitball") + 1])
         if abs(ub - unit_ball(n)) > 1e-12 * unit_ball(n): pred(l, "unitNBallMeasure(%d) = %r, recurrence gives %r" % (n, ub, unit_ball(n)))
+    # (b2) 'all of': the library's transform, recovered as an affine map from n + 1 calls, inverted at world points on both
+    #      sides of the bound: a point whose cost is within the bound is the image of a ball point (PhsGeom.v:
+    #      phs_point_is_image_of_ball_n), one beyond it is not; and the columns of the map are orthogonal with the
+    #      semi-axes as lengths (the distance-preservation hypothesis of the world-frame theorems, numerically)
+    ilines = []
+    for i in range(200 if quick else 6000):
+        n = rng.choice([2, 2, 3, 3, 4, 6, 8, 10])
+        f1 = [rng.uniform(-2, 2) for _ in range(n)]
+        f2 = [f1[k] + (1.0 if k == 0 else 0.0) for k in range(n)] if i % 4 == 0 else [rng.uniform(-2, 2) for _ in range(n)]
+        cmin = math.sqrt(sum((a - b) ** 2 for a, b in zip(f1, f2)))
+        cc = cmin * rng.choice([1.001, 1.1, 1.5, 2.0, 10.0])
+        t = rng.uniform(-0.3, 1.3); sc = rng.choice([0.05, 0.3, 1.0]) * cc
+        p = [f1[k] + t * (f2[k] - f1[k]) + sc * rng.gauss(0, 1) / math.sqrt(n) for k in range(n)]
+        ilines.append(("PHSINV %d %s | %s | %s | %s" % (n, cc.hex(), " ".join(x.hex() for x in f1), " ".join(x.hex() for x in f2), " ".join(x.hex() for x in p)), cc))
+    rc, o, e, s = vf.sh([drv], input="\n".join(g[0] for g in ilines) + "\n", timeout=600); c.step("impl:phs-inverse", drv + " PHSINV ...", s, rc == 0)
+    for (l, cc), out in zip(ilines, o.split("\n")):
+        w = out.split()
+        if w[:2] != ["phsinv", "len"]: pred(l, "no observation (transform not invertible?): " + out[:80]); continue
+        plen, nu, res, dev = fh(w[2]), fh(w[4]), fh(w[6]), fh(w[8])
+        stats["phs_inverse_inside" if plen <= cc else "phs_inverse_outside"] += 1
+        if dev > 1e-9: pred(l, "the transform is not rotation x diag(semi-axes): its columns deviate from orthogonality / the semi-axis lengths by %.3g (relative)" % dev)
+        if res > 1e-7 * max(1.0, cc): continue                               # ill-conditioned solve (c barely above cmin): no verdict
+        margin = 1e-6
+        if plen <= cc * (1 - margin) and nu > 1.0: pred(l, "a state of cost %r, within the bound %r, is not the image of any unit-ball point (pre-image has squared norm %r): it can never be sampled" % (plen, cc, nu))
+        if plen >= cc * (1 + margin) and nu < 1.0: pred(l, "a state of cost %r, beyond the bound %r, is the image of a unit-ball point (squared norm %r)" % (plen, cc, nu))
     # (c) samplers with the real generator
     slines = []
     nsamp = 4000 if quick else 60000
@@ -154,12 +182,13 @@ def main():
                 if abs(only[i] / ok - p) > 6 * sd + 2e-3:
                     pred(l, "states that improve the solution only through start %d hold %.4f of the informed set but received %.4f of the samples (6 sigma = %.4f)" % (i, p, only[i] / ok, 6 * sd)); break
     c.cov.update({"evaluations": len(script) + len(glines) + stats["samples"], "traces_validated_against_impl": len(script), "distinct_nontrivial": stats["rej_success"] + stats["phs"],
-                  "rule": "(a) %d scripted rejection-sampler calls (iteration limits 0..10, one / two bounds, candidates on both sides of the bounds) compared exactly; (b) %d hyperspheroids: dimension 2..10, random / axis-aligned / nearly coincident foci (1e-8 apart), transverse diameter (1+1e-9)..100 x the focal distance, unit vectors on the sphere and inside the ball; (c) direct and rejection samplers on R^2, R^3, R^6, SE(2) with cost bound 1.02..40 x the focal distance, with and without lower bound, %d samples each with the real generator, incl. a 6-sigma level test of uniformity" % (len(script), len(glines), nsamp),
+                  "rule": "(a) %d scripted rejection-sampler calls (iteration limits 0..10, one / two bounds, candidates on both sides of the bounds) compared exactly; (b) %d hyperspheroids (+ %d inverted world points on both sides of the bound): dimension 2..10, random / axis-aligned / nearly coincident foci (1e-8 apart), transverse diameter (1+1e-9)..100 x the focal distance, unit vectors on the sphere and inside the ball; (c) direct and rejection samplers on R^2, R^3, R^6, SE(2) with cost bound 1.02..40 x the focal distance, with and without lower bound, %d samples each with the real generator, incl. a 6-sigma level test of uniformity" % (len(script), len(glines), len(ilines), nsamp),
                   "disagreements": ndiff, "predicate_failures": npred, "histogram": dict(stats)})
     c.cov["samples"] = [script[0], glines[0][0][:160], slines[0]]
     c.cov["trusted_base"] += ["extraction (ExtrOcamlBasic) + extract/phs_driver.ml; harness/phs_driver.cpp; stdlib real-number axioms for the geometric theorems",
                              "the rotation into the world frame (Eigen JacobiSVD) is not modelled: the theorems are stated in the hyperspheroid's own frame and the transform is checked numerically (1e-9 relative)"]
-    c.assumptions += ["uniformity is a statistical test (6 sigma on 4 nested levels), not a theorem; 'all states that can help are reachable' is proved only as surjectivity-free statements (sphere onto the c-level set, ball into the sub-level set)",
+    c.assumptions += ["uniformity: proved as 'the transform is a linear bijection ball <-> hyperspheroid with constant Jacobian' (PhsGeom.v); that a linear bijection carries the uniform density to the uniform density is measure theory not formalised here; the distribution of the library's generator is a statistical test (6 sigma on 4 nested levels)",
+                      "the world-frame theorems hold for every distance-preserving placement of the frame; that the library's rotation (Eigen JacobiSVD) is one is checked numerically (PHSINV: columns orthogonal with the semi-axes as lengths, 1e-9 relative)",
                       "OrderedInfSampler is covered by C03/C01 runs of SORRT* only; several starts / goals by the INFS / INFM statistical tests"]
     if first_pred:
         l, msg = first_pred
